@@ -834,4 +834,102 @@ theorem parse_canon (s : Bytes) : CanonBase (parse s) ∧ OtherOk (parse s) [] :
     exact ⟨h1 _ (List.mem_map.mpr ⟨it, hit, rfl⟩), (h3 it hit).1⟩
   · exact ⟨[], rfl, by simp, by simpa [items] using h2⟩
 
+/-! ### the return value: `mask != 0` -/
+
+/-- every mask bit belongs to a known directive (the `CC_OTHER` and `CC_ENUM_END` bits are never set) -/
+def MaskOk (c : Cc) : Prop := ∀ i, c.mask.testBit i = true → ∃ t : CcType, t.idx = i ∧ t ≠ .other ∧ t ≠ .enumEnd
+
+theorem maskOk_setMask (c : Cc) (t : CcType) (b : Bool) (h : MaskOk c) (ho : t ≠ .other) (he : t ≠ .enumEnd) :
+    MaskOk (c.setMask t b) := by
+  intro i hi
+  unfold Cc.setMask at hi
+  cases b with
+  | true =>
+    simp only [↓reduceIte] at hi
+    have := ebitTest_set c.mask t.idx i
+    unfold ebitTest at this
+    rw [this] at hi
+    simp only [Bool.or_eq_true, decide_eq_true_eq] at hi
+    rcases hi with hi | hi
+    · exact h i hi
+    · exact ⟨t, hi, ho, he⟩
+  | false =>
+    simp only [Bool.false_eq_true, ↓reduceIte] at hi
+    have := ebitTest_clr c.mask t.idx i
+    unfold ebitTest at this
+    rw [this] at hi
+    simp only [Bool.and_eq_true] at hi
+    exact h i hi.1
+
+theorem maskOk_of_mask_eq (c c' : Cc) (h : MaskOk c) (hm : c'.mask = c.mask) : MaskOk c' := by
+  intro i hi; rw [hm] at hi; exact h i hi
+
+theorem stepItem_maskOk (c : Cc) (it : Bytes × Nat) (h : MaskOk c) : MaskOk (stepItem c it) := by
+  unfold stepItem
+  simp only
+  split
+  · exact h
+  · generalize itemType it = u
+    cases u <;> simp only [applyDirective, numericCase_eq]
+    case other => exact maskOk_of_mask_eq c _ h (by simp)
+    case enumEnd => exact h
+    case private_ =>
+      rcases ha : itemArg it with _ | s
+      · exact maskOk_setMask _ _ _ (maskOk_of_mask_eq c _ h (by simp)) (by decide) (by decide)
+      · dsimp only
+        rcases hq : parseQuoted s (it.2 - itemNlen it - 1) with _ | v
+        · exact maskOk_setMask _ _ _ h (by decide) (by decide)
+        · exact maskOk_setMask _ _ _ (maskOk_of_mask_eq c _ h (by simp)) (by decide) (by decide)
+    case noCache =>
+      rcases ha : itemArg it with _ | s
+      · exact maskOk_of_mask_eq _ _ (maskOk_setMask c .noCache true h (by decide) (by decide)) (by simp)
+      · dsimp only
+        rcases hq : parseQuoted s (it.2 - itemNlen it - 1) with _ | v
+        · exact h
+        · exact maskOk_of_mask_eq _ _ (maskOk_setMask c .noCache true h (by decide) (by decide)) (by simp)
+    case maxAge | sMaxage | maxStale | minFresh | staleIfError =>
+      split
+      · exact maskOk_setMask _ _ _ (maskOk_of_mask_eq c _ h (by simp)) (by decide) (by decide)
+      · split <;> exact maskOk_setMask _ _ _ (maskOk_of_mask_eq c _ h (by simp)) (by decide) (by decide)
+    all_goals exact maskOk_setMask _ _ _ h (by decide) (by decide)
+
+theorem parse_maskOk (s : Bytes) : MaskOk (parse s) := by
+  unfold parse parseFrom
+  have : ∀ (its : List (Bytes × Nat)) (c : Cc), MaskOk c → MaskOk (its.foldl stepItem c) := by
+    intro its
+    induction its with
+    | nil => intro c h; exact h
+    | cons it r ih => intro c h; exact ih _ (stepItem_maskOk c it h)
+  apply this
+  intro i hi
+  simp at hi
+
+/-- `parse` returns true iff some known directive is recorded -/
+theorem mask_ne_zero_iff (c : Cc) (h : MaskOk c) :
+    c.mask ≠ 0 ↔ ∃ t : CcType, t ≠ .other ∧ t ≠ .enumEnd ∧ c.isSet t = true := by
+  constructor
+  · intro hne
+    obtain ⟨i, hi⟩ := Nat.exists_testBit_of_ne_zero hne
+    obtain ⟨t, hti, ho, he⟩ := h i hi
+    exact ⟨t, ho, he, by unfold Cc.isSet ebitTest; rw [hti]; exact hi⟩
+  · rintro ⟨t, _, _, hs⟩ hz
+    unfold Cc.isSet ebitTest at hs
+    rw [hz] at hs
+    simp at hs
+
+
+/-- a successful parse stays successful after pack + parse -/
+theorem roundtrip_ok (s : Bytes) (h : (parse s).mask ≠ 0) : (parse (pack (parse s))).mask ≠ 0 := by
+  obtain ⟨t, ho, he, hs⟩ := (mask_ne_zero_iff _ (parse_maskOk s)).mp h
+  have hv := (roundtrip_of_canon (parse s) (parse_canon s).1 (parse_canon s).2 h).1 t ho he
+  apply (mask_ne_zero_iff _ (parse_maskOk _)).mpr
+  refine ⟨t, ho, he, ?_⟩
+  cases hs2 : (parse (pack (parse s))).isSet t with
+  | true => rfl
+  | false =>
+    have h1 : view (parse (pack (parse s))) t = none := (view_none_iff _ _).mpr hs2
+    have h2 : view (parse s) t ≠ none := by simp [view, hs]
+    rw [hv] at h1
+    exact absurd h1 h2
+
 end SquidModel.Cc
